@@ -64,7 +64,7 @@ func rdsNeedsPush(req *model.PushRequest, proxy *model.Proxy) bool {
 	// the service hostname/port/subset (a static string), so it does not change when only
 	// endpoints change. However, if ServiceUpdate is also present, the service definition changed
 	// (ports, labels, etc.) and we need to push RDS.
-	headlessOnly := req.Reason.Has(model.HeadlessEndpointUpdate) && !req.Reason.Has(model.ServiceUpdate)
+	headlessOnly := headlessEndpointUpdateOnly(req)
 	sawServiceEntry := false
 
 	for config := range req.ConfigsUpdated {
